@@ -82,7 +82,7 @@ def job(item):
             # replay: exact evaluation on the sequences and non-zero remainder
             vals = invfam.exact_values(cfs, range(n0, n0 + 25))
             ok = all(sp.Rational(0) == q.xreplace({g: sp.Rational(v.numerator, v.denominator) for g, v in zip(gsyms, row)}) for row in vals)
-            rem = sp.groebner(basis, *gsyms, order="grevlex").reduce(q)[1] if basis else q
+            rem = sp.groebner(basis, *gsyms, order="grevlex", domain=sp.QQ).reduce(q)[1] if basis else q
             if ok and rem != 0:
                 out["records"].append({"kind": "violation", "key": f"{name}|missing",
                                        "what": f"InvariantIdeal{name} reported basis {[str(b) for b in basis]} but {q} vanishes for all n and is not in the ideal (remainder {rem})",
@@ -100,14 +100,14 @@ def main(pid="C06"):
     run = Run(pid, "other")
     tups = invfam.tuples(run.quick, run.seed)
     D = 2 if run.quick else 3
-    items = [{"tuple": t, "rational": r, "which": pid, "D": D, "timeout": 60 if run.quick else 180} for t, r in tups]
+    items = [{"tuple": t, "rational": r, "which": pid, "D": (3 if t in invfam.MUST else D), "timeout": 60 if run.quick else 180} for t, r in tups]
     if run.args.only:
         items = [i for i in items if run.args.only in "; ".join(i["tuple"])]
     results = jobs.run_jobs(job, items, timeout=300 if run.quick else 900)
     checked = nontriv = alln = complete = 0
     for it, (st, val) in zip(items, results):
         if st != "ok":
-            run.inconc(f"{it['tuple']}: job {st} {str(val)[:200] if val else ''}")
+            run.job_failed(it['tuple'], st, val)
             continue
         run.add_stats(val["stats"])
         checked += val["checked"]
